@@ -59,7 +59,7 @@ func H_C09_Spec(v *sym.V) {
 	if v.Bool("zero") {
 		spec += "0"
 	}
-	spec += []string{"", "1", "7", "12"}[v.Choice("width", 4)]
+	spec += []string{"", "1", "4", "7", "12"}[v.Choice("width", 5)]
 	spec += []string{"", ".0", ".2", ".9"}[v.Choice("prec", 4)]
 	verb := []string{"v", "s", "q", "x", "X"}[v.Choice("verb", 5)]
 	spec += verb
